@@ -1,12 +1,11 @@
 SPECIFICATION Spec
 CONSTANTS
-  MaxTok = 4
+  MaxTok = 3
   Alphabet = {"ident", "delim", "star", "open", "close", "lbrace", "rbrace", "colon", "semi", "atrl", "atdl", "atun", "ws", "comment", "cpname", "cdo", "other"}
   Modes = {TRUE, FALSE}
-  Emit = TRUE
+  Emit = FALSE
   AtDeclEndsAtEOF = TRUE
   StarAloneAtEOF = TRUE
-  GuardedPop = TRUE
+  GuardedPop = FALSE
 PROPERTY Refines
-INVARIANTS StackAgrees KeepWSOnlyInUnknown Terminates EndSticky
 CHECK_DEADLOCK FALSE
